@@ -88,7 +88,14 @@ func VerifC11OneWriterOneReader() {
 	var d0 []byte
 	have0 := false
 	same := false
-	switch rt.IntRange(0, 2) {
+	trimmed := false
+	switch rt.IntRange(0, 3) {
+	case 3:
+		// the id was stored before, then its output file was trimmed away while the index
+		// entry survived (Trim judges each file by its own age); the writer stores it again
+		d0 = append([]byte{}, d1...)
+		have0, trimmed = true, true
+		rt.Reach("restore-after-trimmed-output")
 	case 0:
 		rt.Reach("fresh")
 	case 1:
@@ -103,6 +110,14 @@ func VerifC11OneWriterOneReader() {
 	if have0 {
 		rt.Assert(c.PutBytes(id, d0) == nil, "setup-put")
 		fsys.NowSec += 10 // the second Put carries a later timestamp
+	}
+	if trimmed {
+		file, _, err := c.GetFile(id)
+		rt.Assert(err == nil, "setup-getfile")
+		if err != nil {
+			return
+		}
+		delete(fsys.Nodes, file)
 	}
 	snaps := vRecord(fsys, func() {
 		rt.Assert(c.PutBytes(id, d1) == nil, "writer-put-succeeds")
